@@ -13,7 +13,7 @@ CHECKS = {
     "C01": (
         "exploration",
         "property-based testing (Hypothesis): metamorphic relation simulate(pi(P)) == pi(simulate(P)) on all DAG nodes; plus exhaustive enumeration of all row orders of 12 small pointer shapes",
-        "Generated valid populations x drawn permutations / index labellings at every date stratum; both orders are really simulated for all ~320 nodes and compared on p_id (ids as partitions, dtype kind included). A finite block enumerates every row order of 12 hand-picked pointer shapes.",
+        "Generated valid populations x drawn permutations / index labellings (the permuted run also with debug=True and lossless dtype variants) at every date stratum >= 2015 and sampled strata of 2005-2014; both orders are really simulated for all ~320 nodes and compared on p_id (ids as partitions, dtype kind included). A finite block enumerates every row order of 12 hand-picked pointer shapes.",
         "Valid populations per DESIGN.md 2.2; float tolerance 1e-9 relative for re-ordered additions.",
         "3/C01",
     ),
@@ -41,14 +41,14 @@ CHECKS = {
     "C05": (
         "exploration",
         "property-based testing (Hypothesis): round trip - feed a node's own production column back as data, compare all other nodes, require the overlap warning",
-        "For drawn nodes of the DAG (every node over a run) the production column is supplied as data; the second run must not raise, must warn for overridden rules and must reproduce every other node.",
-        "The supplied column has exactly the dtype pandas returned.",
+        "For drawn nodes of the DAG (every node over a run) the production column is supplied as data; the second run must not raise, must warn for overridden rules and must reproduce every other node. Rules are also supplied with OTHER values and compared with replacing the rule by a user rule returning them (differential), so a consumer that ignores the supplied column is seen.",
+        "The supplied column has exactly the dtype pandas returned. For supplied derived columns (unit variants, automatic sums) a difference that one ulp of the supplied values alone produces is counted as ill-conditioned, not reported.",
         "3/C05",
     ),
     "C06": (
         "exploration",
         "property-based testing (Hypothesis): generated reforms (scaled group, single leaf, deep copies, cloned rule, user function f+1, rounding base) with a DAG-derived locality oracle (bit-identical outside the dependants) and an aliasing scan of the parameter dictionary",
-        "Each generated reform is simulated next to the baseline for all nodes; every node that does not depend on the reformed group / rule must be bit-identical, copies and clones must change nothing; additionally no mutable object may be shared between two parameter groups.",
+        "Each generated reform is simulated next to the baseline for all nodes; every node that does not depend on the reformed group / rule must be bit-identical, copies and clones must change nothing; a private params object that was simulated and then edited in place must behave like its deep copy; additionally no mutable object may be shared between two parameter groups or two environments.",
         "Dependants are computed from the code's own DAG; reformed runs that raise are skipped and counted.",
         "3/C06",
     ),
@@ -83,7 +83,7 @@ CHECKS = {
     "C14": (
         "exploration",
         "stateful property-based testing (Hypothesis RuleBasedStateMachine) over API histories with a fresh-interpreter differential oracle, purity snapshots of data / params / functions and a module-attribute invariant",
-        "Generated histories of set-up, simulate, user-side reforms, rewrites into array form, load_functions_for_date and failing calls; after every simulate the caller's objects must be unchanged, the call must be repeatable and its result must equal the result of the same call in a fresh Python process.",
+        "Generated histories of set-up, simulate (also with user aggregation specs that replace built-in ones, and edit-the-same-table-and-simulate-again), user-side reforms, rewrites into array form, load_functions_for_date and failing calls, on dates >= 2015 and of 2009-2014; after every simulate the caller's objects must be unchanged, the call must be repeatable and its result must equal the result of the same call in a fresh Python process.",
         "Synchronous API only; histories of <= 8-12 steps are sampled.",
         "3/C14",
     ),
@@ -132,14 +132,14 @@ CHECKS = {
     "C19": (
         "exploration",
         "property-based testing (Hypothesis) over configurations x dense wage sweeps incl. exact statutory boundaries +-0.01: monotonicity, zero for marginal employment, constancy above ceilings, continuity at the transition-zone end, employee+employer=total",
-        "For each drawn configuration (east/west, children, age, grid step) and stratum a sweep of up to 18000 wages is simulated in one table and the shape invariants are checked for the four employee contributions.",
-        "Employee not self-employed / retired / privately insured.",
+        "For each drawn configuration (east/west, children, age, grid step, pension next to the wage) and stratum from 2003-04-01 on a sweep of up to 18000 wages is simulated in one table and the shape invariants are checked for the four employee contributions.",
+        "Employee not self-employed / privately insured; with a pension, zero-for-marginal is relative to the contribution at wage 0.",
         "3/C19",
     ),
     "C07": (
         "exploration",
         "differential testing against an independent reference model of the YAML semantics (exact Fraction schedules) over enumerated change dates, their neighbours, leap days and seeded random days; decorator-derived oracle for rules; within-stratum constancy",
-        "Every parameter leaf, rounding spec, schedule coefficient and the rule dictionary of set_up_policy_environment(d) is compared with a reference resolver written from GEP 3/5 over yaml.safe_load, on change dates +-1 day, leap days and random days from 1980 on.",
+        "Every parameter leaf, rounding spec, schedule coefficient and the rule dictionary of set_up_policy_environment(d) is compared with a reference resolver written from GEP 3/5 over yaml.safe_load, on change dates +-1 day, leap days and random days from 1980 on; before each further set-up everything mutable in the previously returned environment is overwritten in place (history).",
         "The reference model is a second reading of the documentation; disagreements are triaged against GEP 3 before being reported.",
         "3/C07",
     ),
